@@ -19,6 +19,14 @@ type depGraph struct {
 	nodes []any
 	succ  [][]int32 // src -> dsts
 	pred  [][]int32 // dst -> srcs
+	succV [][]int32 // value-preserving subset of succ: the destination IS the source value (up to conversion / +-const)
+	valuePreserving bool
+	directBy []int32
+	direct []bool // value directly chosen by the request (parsed number, search result) through value-preserving steps
+	succC [][]int32 // content-only edges (element stores): do not change the shape (length) of the destination
+	contentOnly bool
+	shape []bool // shape (length) is request-controlled
+	shapeBy []int32
 
 	sources []int
 	tainted []bool
@@ -110,6 +118,8 @@ func (g *depGraph) id(k any) int {
 	g.nodes = append(g.nodes, k)
 	g.succ = append(g.succ, nil)
 	g.pred = append(g.pred, nil)
+	g.succC = append(g.succC, nil)
+	g.succV = append(g.succV, nil)
 	return i
 }
 
@@ -120,6 +130,9 @@ func (g *depGraph) edge(dst, src any) {
 	if v, ok := src.(ssa.Value); ok {
 		if _, isConst := v.(*ssa.Const); isConst {
 			return
+		}
+		if types.TypeString(v.Type(), nil) == "context.Context" {
+			return // cancellation contexts carry no request data
 		}
 		if _, isFn := v.(*ssa.Function); isFn {
 			return
@@ -132,7 +145,14 @@ func (g *depGraph) edge(dst, src any) {
 	if d == s {
 		return
 	}
-	g.succ[s] = append(g.succ[s], int32(d))
+	if g.contentOnly {
+		g.succC[s] = append(g.succC[s], int32(d))
+	} else {
+		g.succ[s] = append(g.succ[s], int32(d))
+	}
+	if g.valuePreserving {
+		g.succV[s] = append(g.succV[s], int32(d))
+	}
 	g.pred[d] = append(g.pred[d], int32(s))
 }
 
@@ -148,6 +168,7 @@ func (g *depGraph) edgeID(d, s int, srcVal ssa.Value) {
 		return
 	}
 	g.succ[s] = append(g.succ[s], int32(d))
+	g.succV[s] = append(g.succV[s], int32(d)) // parameter / result links preserve the value
 	g.pred[d] = append(g.pred[d], int32(s))
 }
 
@@ -192,6 +213,61 @@ var selectionFuncs = map[string]bool{
 	"io/fs.ReadFile": true, "os.ReadFile": true, "os.Open": true, "os.Stat": true, "io/fs.Stat": true,
 	"time.Now": true, "os.Create": true, "os.OpenFile": true, "(io/fs.FS).Open": true, "os.ReadDir": true, "io/fs.ReadDir": true,
 	"os.Getenv": true,
+}
+
+// isRepoStruct: (pointer to) a struct type declared in the repository. All
+// writes to its fields are visible as field stores, except reflective decoding,
+// which is modelled by deepFieldNodes.
+func isRepoStruct(t types.Type) bool {
+	if p, ok := t.Underlying().(*types.Pointer); ok {
+		t = p.Elem()
+	}
+	n, ok := t.(*types.Named)
+	if !ok {
+		return false
+	}
+	if _, ok := n.Underlying().(*types.Struct); !ok {
+		return false
+	}
+	return n.Obj().Pkg() != nil && isRepoPkgPath(n.Obj().Pkg().Path())
+}
+
+// deepFieldNodes lists the field nodes of a repository struct type reachable
+// through nested repository structs, pointers, slices, arrays and maps.
+func deepFieldNodes(t types.Type, seen map[types.Type]bool, out *[]any) {
+	if seen[t] {
+		return
+	}
+	seen[t] = true
+	switch u := t.(type) {
+	case *types.Pointer:
+		deepFieldNodes(u.Elem(), seen, out)
+		return
+	case *types.Slice:
+		deepFieldNodes(u.Elem(), seen, out)
+		return
+	case *types.Array:
+		deepFieldNodes(u.Elem(), seen, out)
+		return
+	case *types.Map:
+		deepFieldNodes(u.Elem(), seen, out)
+		return
+	}
+	if !isRepoStruct(t) {
+		if st, ok := t.Underlying().(*types.Struct); ok && t == t.Underlying() {
+			// anonymous struct (huma Body struct{...}): fields are addressed through the enclosing named type
+			for i := 0; i < st.NumFields(); i++ {
+				*out = append(*out, fieldNodeOf(t, i))
+				deepFieldNodes(st.Field(i).Type(), seen, out)
+			}
+		}
+		return
+	}
+	st := t.Underlying().(*types.Struct)
+	for i := 0; i < st.NumFields(); i++ {
+		*out = append(*out, fieldNodeOf(t, i))
+		deepFieldNodes(st.Field(i).Type(), seen, out)
+	}
 }
 
 func isPointerLike(t types.Type) bool {
@@ -405,6 +481,9 @@ func (g *depGraph) computeWritesThrough(fns []*ssa.Function) {
 							writes := false
 							if len(callees) == 0 {
 								writes = !g.pureOpaqueCall(cc)
+								if _, isB := cc.Value.(*ssa.Builtin); isB && ai != 0 {
+									writes = false // copy/append/delete/clear write their first argument only
+								}
 							}
 							for _, callee := range callees {
 								if g.inGraph(callee) {
@@ -441,6 +520,26 @@ func (g *depGraph) pureOpaque(callee *ssa.Function) bool {
 	}
 	if pk == "log/slog" {
 		return true // logging does not write to its arguments
+	}
+	return false
+}
+
+// readOnlyArgsCallee: opaque callees that may modify their receiver / first
+// argument (a writer, buffer, encoder, logger, header map) but by contract never
+// the remaining arguments (io.Writer: "Write must not modify the slice data").
+func readOnlyArgsCallee(name string, cc *ssa.CallCommon) bool {
+	m := ""
+	if cc.IsInvoke() {
+		m = cc.Method.Name()
+	} else if f := cc.StaticCallee(); f != nil {
+		m = f.Name()
+	}
+	switch {
+	case strings.HasPrefix(m, "Write"), strings.HasPrefix(m, "Print"), strings.HasPrefix(m, "Fprint"),
+		strings.HasPrefix(m, "Encode"), strings.HasPrefix(m, "Marshal"),
+		m == "Set", m == "Add", m == "Del", m == "Error", m == "Info", m == "Debug", m == "Warn", m == "Log", m == "With",
+		m == "Sum", m == "Execute", m == "ExecuteTemplate", m == "Do", m == "NewRequest", m == "NewRequestWithContext":
+		return true
 	}
 	return false
 }
@@ -505,17 +604,23 @@ func (g *depGraph) addFunc(fn *ssa.Function) {
 }
 
 func (g *depGraph) addInstr(fn *ssa.Function, in ssa.Instruction) {
+	g.valuePreserving = isValuePreserving(in)
+	defer func() { g.valuePreserving = false }()
 	switch x := in.(type) {
 	case *ssa.Store:
+		_, elem := x.Addr.(*ssa.IndexAddr)
+		g.contentOnly = elem // storing an element does not change the container's length
 		for _, t := range g.storeTargets(x.Addr, 0) {
 			g.edge(t, x.Val)
 		}
+		g.contentOnly = false
 	case *ssa.MapUpdate:
+		// values and keys are kept apart: a request-chosen key does not make the stored values request data
 		g.edge(ssa.Value(x.Map), x.Value)
-		g.edge(ssa.Value(x.Map), x.Key)
+		g.edge(mapKeys{ssa.Value(x.Map)}, x.Key)
 		for _, t := range g.containerOrigins(x.Map, 0) {
 			g.edge(t, x.Value)
-			g.edge(t, x.Key)
+			g.edge(mapKeys{t}, x.Key)
 		}
 	case *ssa.Send:
 		g.edge(contentNode_(x.Chan), x.X)
@@ -549,7 +654,9 @@ func (g *depGraph) addInstr(fn *ssa.Function, in ssa.Instruction) {
 				for _, fnode := range g.fieldLoadNodes(a.X.Type(), a.Field) {
 					g.edge(v, fnode)
 				}
-				g.edge(v, ssa.Value(a.X))
+				if !isRepoStruct(a.X.Type()) {
+					g.edge(v, ssa.Value(a.X)) // library objects: whole-object taint (decoded request data)
+				}
 			case *ssa.IndexAddr:
 				g.edge(v, ssa.Value(a.X))
 			default:
@@ -566,9 +673,13 @@ func (g *depGraph) addInstr(fn *ssa.Function, in ssa.Instruction) {
 			g.edge(v, x.X)
 		}
 	case *ssa.FieldAddr:
-		g.edge(v, x.X)
+		if !isRepoStruct(x.X.Type()) {
+			g.edge(v, x.X)
+		}
 	case *ssa.Field:
-		g.edge(v, x.X)
+		if !isRepoStruct(x.X.Type()) {
+			g.edge(v, x.X)
+		}
 		for _, fnode := range g.fieldLoadNodes(x.X.Type(), x.Field) {
 			g.edge(v, fnode)
 		}
@@ -606,8 +717,24 @@ func (g *depGraph) addInstr(fn *ssa.Function, in ssa.Instruction) {
 			g.edge(v, e)
 		}
 	case *ssa.Extract:
+		if nx, ok := x.Tuple.(*ssa.Next); ok && !nx.IsString {
+			if rng, ok := nx.Iter.(*ssa.Range); ok {
+				switch x.Index {
+				case 1: // key
+					g.edge(v, mapKeys{ssa.Value(rng.X)})
+					for _, t := range g.containerOrigins(rng.X, 0) {
+						g.edge(v, mapKeys{t})
+					}
+				case 2:
+					g.edge(v, rng.X)
+				}
+				return
+			}
+		}
 		g.edge(v, tupleNode{x.Tuple, x.Index})
-		g.edge(v, x.Tuple)
+		if _, isCall := x.Tuple.(*ssa.Call); !isCall {
+			g.edge(v, x.Tuple)
+		}
 	case *ssa.Range:
 		g.edge(v, x.X)
 	case *ssa.Next:
@@ -642,6 +769,33 @@ func (g *depGraph) addInstr(fn *ssa.Function, in ssa.Instruction) {
 	}
 }
 
+// isValuePreserving: the instruction's result is its operand's value (up to an
+// integer conversion or +- a constant), or moves the value through memory.
+func isValuePreserving(in ssa.Instruction) bool {
+	switch x := in.(type) {
+	case *ssa.Store, *ssa.Return, *ssa.Phi, *ssa.ChangeType, *ssa.MakeInterface, *ssa.TypeAssert, *ssa.Extract, *ssa.Field, *ssa.ChangeInterface:
+		return true
+	case *ssa.Convert:
+		bs, ok1 := x.X.Type().Underlying().(*types.Basic)
+		bt, ok2 := x.Type().Underlying().(*types.Basic)
+		return ok1 && ok2 && bs.Info()&types.IsNumeric != 0 && bt.Info()&types.IsNumeric != 0
+	case *ssa.UnOp:
+		return x.Op == token.MUL || x.Op == token.SUB
+	case *ssa.BinOp:
+		if x.Op == token.ADD || x.Op == token.SUB {
+			_, cx := x.X.(*ssa.Const)
+			_, cy := x.Y.(*ssa.Const)
+			return cx || cy
+		}
+	case *ssa.Call:
+		// calls into analysed functions link params/results (value preserving); opaque calls are not
+		return false
+	}
+	return false
+}
+
+type mapKeys struct{ of any }
+
 type retNode struct {
 	fn *ssa.Function
 	i  int
@@ -663,10 +817,12 @@ func (g *depGraph) addCall(fn *ssa.Function, site ssa.CallInstruction, val *ssa.
 			}
 		case "copy":
 			if len(cc.Args) == 2 {
+				g.contentOnly = true
 				g.edge(ssa.Value(cc.Args[0]), cc.Args[1])
 				for _, t := range g.containerOrigins(cc.Args[0], 0) {
 					g.edge(t, cc.Args[1])
 				}
+				g.contentOnly = false
 			}
 		case "len", "cap", "min", "max", "real", "imag", "complex":
 			if val != nil {
@@ -718,6 +874,9 @@ func (g *depGraph) addCall(fn *ssa.Function, site ssa.CallInstruction, val *ssa.
 		}
 		if g.inGraph(callee) {
 			handled = true
+			saveVP := g.valuePreserving
+			g.valuePreserving = true
+			defer func() { g.valuePreserving = saveVP }()
 			params := callee.Params
 			full := args
 			if recvExtra != nil {
@@ -796,6 +955,18 @@ func (g *depGraph) addCall(fn *ssa.Function, site ssa.CallInstruction, val *ssa.
 			if !isPointerLike(a.Type()) {
 				continue
 			}
+			if i > 0 && readOnlyArgsCallee(name, cc) {
+				continue // writers, loggers, encoders do not modify their data arguments
+			}
+			// reflective decoding into a repository struct (json.Unmarshal(data, &v), Decode(&v))
+			var deep []any
+			at := a.Type()
+			if mi, ok := a.(*ssa.MakeInterface); ok {
+				at = mi.X.Type()
+			}
+			if _, isPtr := at.Underlying().(*types.Pointer); isPtr {
+				deepFieldNodes(at, map[types.Type]bool{}, &deep)
+			}
 			for j, b := range full {
 				if i == j {
 					continue
@@ -803,6 +974,9 @@ func (g *depGraph) addCall(fn *ssa.Function, site ssa.CallInstruction, val *ssa.
 				g.edge(contentNode_(a), b)
 				g.edge(ssa.Value(a), b)
 				for _, t := range g.containerOrigins(a, 0) {
+					g.edge(t, b)
+				}
+				for _, t := range deep {
 					g.edge(t, b)
 				}
 			}
@@ -837,6 +1011,11 @@ func (g *depGraph) markSources() {
 			}
 			if isHumaHandlerType(rt.Fn.Signature) && i == len(rt.Fn.Params)-1 {
 				g.sources = append(g.sources, g.id(ssa.Value(prm)))
+				var deep []any
+				deepFieldNodes(prm.Type(), map[types.Type]bool{}, &deep)
+				for _, d := range deep {
+					g.sources = append(g.sources, g.id(d))
+				}
 			}
 		}
 	}
@@ -854,7 +1033,150 @@ func (g *depGraph) markSources() {
 	}
 }
 
+// propagateShape: like taint, but element stores do not flow into containers.
+func (g *depGraph) propagateShape() {
+	g.shape = make([]bool, len(g.nodes))
+	g.shapeBy = make([]int32, len(g.nodes))
+	for i := range g.shapeBy {
+		g.shapeBy[i] = -1
+	}
+	var q []int
+	for _, s := range g.sources {
+		if !g.shape[s] {
+			g.shape[s] = true
+			q = append(q, s)
+		}
+	}
+	for len(q) > 0 {
+		n := q[0]
+		q = q[1:]
+		for _, d := range g.succ[n] {
+			if !g.shape[d] {
+				g.shape[d] = true
+				g.shapeBy[d] = int32(n)
+				q = append(q, int(d))
+			}
+		}
+	}
+}
+
+func (g *depGraph) shapeTrail(v ssa.Value, max int) []string {
+	i, ok := g.ids[v]
+	if !ok {
+		return nil
+	}
+	var out []string
+	for n := i; n >= 0 && len(out) < max; n = int(g.shapeBy[n]) {
+		out = append(out, g.nodeString(n))
+	}
+	return out
+}
+
+func (g *depGraph) isShapeTainted(v ssa.Value) bool {
+	if v == nil {
+		return false
+	}
+	i, ok := g.ids[v]
+	return ok && g.shape[i]
+}
+
+// directSources: results of number parsers and searches applied to request data.
+var parseFuncs = map[string]bool{
+	"strconv.Atoi": true, "strconv.ParseInt": true, "strconv.ParseUint": true, "strconv.ParseFloat": true,
+	"sort.Search": true, "sort.SearchInts": true,
+	"encoding/binary.bigEndian.Uint32": true, "encoding/binary.bigEndian.Uint64": true, "encoding/binary.bigEndian.Uint16": true,
+	"(encoding/binary.bigEndian).Uint32": true, "(encoding/binary.bigEndian).Uint64": true, "(encoding/binary.bigEndian).Uint16": true,
+}
+
+func (g *depGraph) propagateDirect() {
+	g.direct = make([]bool, len(g.nodes))
+	g.directBy = make([]int32, len(g.nodes))
+	for i := range g.directBy {
+		g.directBy[i] = -1
+	}
+	var q []int
+	cur := -1
+	mark := func(n int) {
+		if !g.direct[n] {
+			g.direct[n] = true
+			g.directBy[n] = int32(cur)
+			q = append(q, n)
+		}
+	}
+	for k, n := range g.ids {
+		var call *ssa.Call
+		switch x := k.(type) {
+		case ssa.Value:
+			call, _ = x.(*ssa.Call)
+		case tupleNode:
+			if x.i == 0 {
+				call, _ = x.tup.(*ssa.Call)
+			}
+		case ctxVal:
+			call, _ = x.v.(*ssa.Call)
+		}
+		if call == nil {
+			continue
+		}
+		callee := call.Call.StaticCallee()
+		if callee == nil || !parseFuncs[callee.String()] {
+			continue
+		}
+		if g.tainted[n] {
+			mark(n)
+		}
+	}
+	// decoded numeric fields of request-derived library objects (upload): a field
+	// load from a tainted library object is as direct as a parsed number
+	for k, n := range g.ids {
+		if g.side != "recv" {
+			break // livesim2 decodes no request bytes into library objects
+		}
+		v, ok := k.(ssa.Value)
+		if !ok || !g.tainted[n] {
+			continue
+		}
+		if u, ok := v.(*ssa.UnOp); ok && u.Op == token.MUL {
+			if fa, ok := u.X.(*ssa.FieldAddr); ok && !isRepoStruct(fa.X.Type()) {
+				if bt, ok := v.Type().Underlying().(*types.Basic); ok && bt.Info()&types.IsInteger != 0 {
+					mark(n)
+				}
+			}
+		}
+	}
+	for len(q) > 0 {
+		n := q[0]
+		q = q[1:]
+		cur = n
+		for _, d := range g.succV[n] {
+			mark(int(d))
+		}
+	}
+}
+
+func (g *depGraph) directTrail(v ssa.Value, max int) []string {
+	i, ok := g.ids[v]
+	if !ok || !g.direct[i] {
+		return nil
+	}
+	var out []string
+	for n := i; n >= 0 && len(out) < max; n = int(g.directBy[n]) {
+		out = append(out, g.nodeString(n))
+	}
+	return out
+}
+
+func (g *depGraph) isDirect(v ssa.Value) bool {
+	if v == nil {
+		return false
+	}
+	i, ok := g.ids[v]
+	return ok && g.direct[i]
+}
+
 func (g *depGraph) propagateTaint() {
+	defer g.propagateDirect()
+	g.propagateShape()
 	g.tainted = make([]bool, len(g.nodes))
 	g.taintBy = make([]int32, len(g.nodes))
 	for i := range g.taintBy {
@@ -870,11 +1192,13 @@ func (g *depGraph) propagateTaint() {
 	for len(q) > 0 {
 		n := q[0]
 		q = q[1:]
-		for _, d := range g.succ[n] {
-			if !g.tainted[d] {
-				g.tainted[d] = true
-				g.taintBy[d] = int32(n)
-				q = append(q, int(d))
+		for _, l := range [][]int32{g.succ[n], g.succC[n]} {
+			for _, d := range l {
+				if !g.tainted[d] {
+					g.tainted[d] = true
+					g.taintBy[d] = int32(n)
+					q = append(q, int(d))
+				}
 			}
 		}
 	}
@@ -913,6 +1237,8 @@ func (g *depGraph) nodeString(n int) string {
 		return string(k)
 	case retNode:
 		return "ret:" + shortFn(k.fn)
+	case mapKeys:
+		return "keys-of-map"
 	case ctxRet:
 		return "ret@site:" + shortFn(k.fn)
 	case ctxVal:
